@@ -22,6 +22,9 @@ def wasQueued (older : List Ev) (id : Nat) : Bool :=
 def wasRejected (older : List Ev) (id : Nat) : Bool :=
   older.any fun | .rejected i _ => i == id | _ => false
 
+def wasChecked (older : List Ev) (id : Nat) : Bool :=
+  older.any fun | .checked i => i == id | _ => false
+
 def wasDone (older : List Ev) (id : Nat) : Bool :=
   older.any fun | .done i _ _ => i == id | _ => false
 
@@ -58,11 +61,11 @@ def queuedBefore : List Ev → Nat → Nat → Bool
   | _ :: rest, a, b => queuedBefore rest a b
 
 /-- (V) one verdict: a request is queued or rejected at most once, a verdict is delivered only to
-a queued request and only once. -/
+a request that was given a slot and only once. -/
 def verdictOk (older : List Ev) : Ev → Bool
   | .queued i _ _ => !wasQueued older i && !wasRejected older i
   | .rejected i _ => !wasQueued older i && !wasRejected older i
-  | .done i _ _ => wasQueued older i && !wasDone older i
+  | .done i _ _ => wasChecked older i && !wasDone older i
   | _ => true
 
 /-- (Q) allowed only when the quota's `Inc;Allowed` just succeeded for this request. -/
